@@ -540,6 +540,11 @@ class Interp(object):
             return v
         if kind == "slice":
             return ("slice", loc[1], loc[2])
+        if kind == "sub":
+            arr = self._get(st, loc[1])
+            if not isinstance(arr, list) or not (0 <= loc[2] <= loc[3] <= len(arr)):
+                raise Undecided("sub-array of something that is not a local array")
+            return list(arr[loc[2]:loc[3]])
         raise Undecided("unknown location kind")
 
     def _field(self, v, i):
@@ -606,11 +611,22 @@ class Interp(object):
                 loc = self.index_loc(st, loc, iv)
             elif k == "constindex":
                 loc = self.index_loc(st, loc, p.get("offset", p.get("i")))
+            elif k == "subslice" and loc[0] == "local" and not p.get("from_end"):
+                # `[a, rest @ ..]` on a local array: the tail as a value
+                loc = ("sub", loc, int(p["from"]), int(p["to"]))
             else:
                 raise Undecided("projection %s" % k)
         return loc
 
     def index_loc(self, st, loc, iv):
+        if loc[0] == "local":
+            arr = self._get(st, loc)
+            if isinstance(iv, BV):
+                iv = iv.concrete()
+            if isinstance(arr, list) and isinstance(iv, int) and not isinstance(iv, bool):
+                if not (0 <= iv < len(arr)):
+                    raise Panic("index %d out of bounds of a local array of %d" % (iv, len(arr)))
+                return ("local", loc[1], tuple(loc[2]) + (iv,)) + tuple(loc[3:])
         if loc[0] != "slice":
             raise Undecided("index into something that is not the buffer")
         if lin_parts(iv) is None:
@@ -813,6 +829,8 @@ class Interp(object):
         d = ty_bits(dst_ty)
         s = ty_bits(src_ty)
         if d is None:
+            if dst_ty.get("k") == "ref" and isinstance(v, Ref):
+                return v            # unsizing `&[T; N]` -> `&[T]`: the same referent
             if dst_ty.get("k") == "other" and isinstance(v, (BV, int)):
                 # cast into the carrier type (generic): width W
                 d = (self.W, None)
@@ -1140,6 +1158,10 @@ class Interp(object):
             import inline
             if not t.get("resolved") and inline._dispatches_on_self(self.prog.fns, c):
                 raise Undecided("call of %s on a generic Self: the trait's default body is overridden by some impl" % c)
+            if "{closure#" in c.rsplit("::", 1)[-1] and len(args) == 2 and isinstance(args[1], Tup) \
+                    and self.prog.fns[c].rec.get("argc", 0) == 1 + len(args[1].fields):
+                # a closure called by name (`f(x)` on a local closure): the call passes the arguments as one tuple, the body takes them spread
+                args = [args[0]] + list(args[1].fields)
             return self.exec_fn(st, self.prog.fns[c], args)
         raise Undecided("call of %s" % c)
 
